@@ -209,6 +209,22 @@ func discharge(f *FnVC, o dischargeOpts, stats *runStats) {
 				if best.verdict != "unsat" && best.verdict != "sat" {
 					best, _ = race(file, o.timeoutS, o.seed, false, nil)
 				}
+				// a 'sat' on a script with quantifiers or recursive definitions is only a candidate (the solver's model need
+				// not satisfy them everywhere): it is overruled by a refutation from another solver; otherwise it stands
+				if best.verdict == "sat" && !ob.Cover && (strings.Contains(script, "(forall ") || strings.Contains(script, "define-fun-rec")) {
+					for _, sd := range solvers {
+						if strings.HasPrefix(best.solver, sd.name) {
+							continue
+						}
+						r := runSolver(context.Background(), sd, file, o.timeoutS, o.seed)
+						stats.add(r.ms)
+						if r.verdict == "unsat" {
+							r.solver += " (overrules an unconfirmed 'sat' of " + best.solver + ")"
+							best = r
+							break
+						}
+					}
+				}
 				// solver incompleteness on quantified goals depends on the random seed: an 'unknown' is retried with
 				// two other seeds (any 'unsat' is a proof; 'sat' is never produced by retrying harder)
 				for extra := 1; extra <= 2 && !ob.Cover && ob.Known == nil && best.verdict != "unsat" && best.verdict != "sat"; extra++ {
@@ -219,7 +235,18 @@ func discharge(f *FnVC, o dischargeOpts, stats *runStats) {
 					}
 				}
 			} else {
-				best, _ = race(file, o.timeoutS, o.seed, true, nil)
+				var all []solveResult
+				best, all = race(file, o.timeoutS, o.seed, true, nil)
+				if best.verdict == "disagree" && (strings.Contains(script, "(forall ") || strings.Contains(script, "define-fun-rec")) {
+					// with quantifiers or recursive definitions a 'sat' is only a candidate; a refutation stands
+					for _, r := range all {
+						if r.verdict == "unsat" {
+							r.solver += " (overrules an unconfirmed 'sat')"
+							best = r
+							break
+						}
+					}
+				}
 			}
 			ob.Solver = best.solver
 			ob.Ms = best.ms
